@@ -1,6 +1,6 @@
 (* C03 (RetryExecutor part) -- no future is lost, and progress does not hinge on a fallback timer: statements
    about the Retry machine (Model/Retry.v).  Statements only.
-   Vocabulary (Proofs/Retry_N0.v, Retry_N6.v, Retry_N7.v):
+   Vocabulary (Proofs/Retry_N0.v, Retry_N1.v, Retry_N6.v, Retry_N7.v, Retry_N14.v):
    - quiescent s tau since: every thread other than the submit thread (thread 0) has an empty program, the
      submit thread is parked in event.wait(tau) since `since` (wblock s = Some (tau, since)) and no set() has
      arrived since it parked (wnotif s = false).  The event flag is then clear (c03_retry_parked_flag_clear):
@@ -10,14 +10,23 @@
      records the time of every scan; it accepts exactly the same traces and has exactly the same reachable
      states (c03_retry_ghost_conservative).  The ghost is needed because the timeout handed to wait() is
      `job.when - now` with `now` read at the scan: the state alone does not remember `now`.
-   - waiting_ok s g tau since r: record r either has an attempt in flight (jdel = Some d, d < ndel, d not done,
-     _delegate_callback registered on d) or sleeps between retries (jdel = None) and the wait is TIMED:
-     tau = Some x, 0 < x, g <= since and g + x <= jwhen (recs s r) -- measured from the scan the wait ends no
-     later than the record is due; the worker wakes by itself, no fallback timeout is involved (the machine
-     has none).  *)
+   - envc s d: somebody else (not RetryFuture.cancel()) cancelled delegate future d: the machine's event
+     EEnvCancel t d Pending (wire code 23) made its Pending -> Cancelled transition (ghost history event
+     HEnvCancel d ts).
+   - the record r of a retry future that is not done is, in a quiescent state, in one of three situations:
+       inflight_ok s r        an attempt in flight: jdel = Some d, d < ndel, d not done, _delegate_callback registered;
+       sleeping_ok s g tau since r   between retries (jdel = None) and the wait is TIMED: tau = Some x, 0 < x,
+                              g <= since and g + x <= jwhen (recs s r) -- measured from the scan the wait ends no
+                              later than the record is due; the worker wakes by itself, no fallback timeout is
+                              involved (the machine has none);
+       foreign_cancelled s r  jdel = Some d, d < ndel, d cancelled, envc s d: the known defect G1 --
+                              _delegate_callback returned silently, the record stays, nobody will resolve the future;
+     waiting_ok s g tau since r is their disjunction, xor3 A B C says exactly one of them holds.
+   - no_cancel_of j es: the continuation es contains no call of cancel() on retry future j. *)
 From Coq Require Import List ZArith Bool Arith.
 From ME Require Import Base.Machine Base.Fut Base.GenPrelude Gen.RetryGen Model.Retry
-  Proofs.Retry_N0 Proofs.Retry_N5 Proofs.Retry_N6 Proofs.Retry_N7 Proofs.Retry_N8 Proofs.Retry_N9 Proofs.Retry_N12.
+  Proofs.Retry_N0 Proofs.Retry_N1 Proofs.Retry_N5 Proofs.Retry_N6 Proofs.Retry_N7 Proofs.Retry_N8 Proofs.Retry_N9 Proofs.Retry_N12
+  Proofs.Retry_N10 Proofs.Retry_N14 Proofs.Retry_N15 Proofs.Retry_N17.
 Import ListNotations.
 
 Definition reachable := reachable_from step init.
@@ -33,9 +42,11 @@ Theorem c03_retry_parked_flag_clear : forall s tau since, reachable s ->
   wblock s = Some (tau, since) -> wnotif s = false -> evf s = false.
 Proof. exact parked_flag_clear. Qed.
 
-(* (a) no future is lost: in a quiescent state every retry future that is not done has a record in _jobs
-   that is legitimately waiting -- attempt in flight with the callback registered, or sleeping with a
-   timed worker wait that ends (measured from the scan, time g) no later than the record is due *)
+(* (a) in a quiescent state every retry future that is not done has a record in _jobs that is legitimately waiting
+   -- attempt in flight with the callback registered, or sleeping with a timed worker wait that ends (measured from
+   the scan, time g) no later than the record is due -- OR whose delegate future was cancelled by somebody else
+   (third alternative of waiting_ok; it did not exist before the machine had EEnvCancel, see
+   c03_retry_no_lost_two_way_refuted) *)
 Theorem c03_retry_no_lost_scan_time : forall s g tau since, reachableG (s, g) -> quiescent s tau since ->
   evf s = false /\
   forall j, j < nfut s -> fdone (rs s j) = false ->
@@ -49,27 +60,95 @@ Theorem c03_retry_no_lost : forall s tau since, reachable s -> quiescent s tau s
   exists r, In r (jobs s) /\ jf (recs s r) = j /\ exists g, waiting_ok s g tau since r.
 Proof. exact retry_no_lost. Qed.
 
-(* the three-way reading of the property (in flight / sleeping with a timed wait / delegate future cancelled
-   by somebody else); the third alternative never arises in this machine, see below *)
+(* the three-way form: a pending future at quiescence has EXACTLY ONE record in _jobs, and that record is in exactly
+   one of the situations: in flight (delegate not done, callback registered) XOR sleeping under a timed wait XOR in
+   flight on a delegate future cancelled through EEnvCancel *)
 Theorem c03_retry_no_lost_three_way : forall s tau since, reachable s -> quiescent s tau since ->
+  forall j, j < nfut s -> fdone (rs s j) = false ->
+  exists r, In r (jobs s) /\ jf (recs s r) = j /\
+    (forall r', In r' (jobs s) -> jf (recs s r') = j -> r' = r) /\
+    exists g, xor3 (inflight_ok s r) (sleeping_ok s g tau since r) (foreign_cancelled s r).
+Proof. exact retry_no_lost_3. Qed.
+
+(* the weaker three-way reading stated before the machine had EEnvCancel (still true: it is implied) *)
+Theorem c03_retry_no_lost_three_way_weak : forall s tau since, reachable s -> quiescent s tau since ->
   forall j, j < nfut s -> fdone (rs s j) = false ->
   exists r, In r (jobs s) /\ jf (recs s r) = j /\
     ((exists d, jdel (recs s r) = Some d /\ fdone (ds s d) = false /\ dcb s d = true) \/
      (jdel (recs s r) = None /\ exists x, tau = Some x /\ (0 < x)%Z) \/
      (exists d, jdel (recs s r) = Some d /\ fcancelled (ds s d) = true)).
-Proof. exact retry_no_lost_3. Qed.
+Proof. exact retry_no_lost_3_weak. Qed.
 
-(* (b) -- NOT refuted here.  Model/Retry.v has no event by which the environment cancels a delegate future
-   (the environment only runs / starts / finishes them: EEnvRun, EEnvStart, EEnvFinish; Future.cancel() on a
-   delegate future is only issued by RetryFuture.cancel() through IDCancel).  Within the machine the
-   literal property therefore HOLDS: at quiescence the retry future of a cancelled delegate future is done
-   (cancelled), and in the example below its record is gone.  The known defect G1 (_delegate_callback returns silently
-   for a delegate future cancelled by someone else) needs an environment-cancel event in the model. *)
-(* TODO-PROOF retry_lost_after_foreign_cancel_refuted: needs `EEnvCancel t d pre` in Model/Retry.v *)
+(* the TWO-way reading (the property as stated: every pending future is in flight or sleeping under a timed wait) is
+   FALSE of the machine with EEnvCancel: in the state exl_state below the only record of the pending future 0 is in
+   neither situation *)
+Theorem c03_retry_no_lost_two_way_refuted :
+  exists s tau since j, reachable s /\ quiescent s tau since /\ j < nfut s /\ fdone (rs s j) = false /\
+    forall r, In r (jobs s) -> jf (recs s r) = j -> forall g, ~ (inflight_ok s r \/ sleeping_ok s g tau since r).
+Proof. exact exl_two_way_refuted. Qed.
+
+(* (b) retry_lost_after_foreign_cancel: "the dependent future ends cancelled or failed rather than pending forever"
+   is REFUTED by a concrete accepted trace (G1) -- submit, the worker submits the first attempt and parks, an
+   environment thread calls cancel() on the delegate future (EEnvCancel 2 0 Pending, wire [1; 23; 2; 0; 0]),
+   _delegate_callback runs inline and returns silently: a reachable quiescent state in which the delegate future
+   is cancelled, the retry future is Pending without outcome, its record is still in _jobs in flight on the
+   cancelled delegate future, and the worker waits WITHOUT timeout *)
+Example c03_retry_lost_after_foreign_cancel_refuted :
+  run step init exl_trace <> None /\ reachable exl_state /\ quiescent exl_state None 0%Z /\
+  nfut exl_state = 1 /\ rs exl_state 0 = Pending /\ rout exl_state 0 = None /\ jobs exl_state = [1] /\
+  jf (recs exl_state 1) = 0 /\ jdel (recs exl_state 1) = Some 0 /\ ds exl_state 0 = Cancelled /\
+  dcb exl_state 0 = true /\ In (HEnvCancel 0 1%Z) (hist exl_state) /\
+  evf exl_state = false /\ wblock exl_state = Some (None, 0%Z) /\ wnotif exl_state = false.
+Proof. split; [exact exl_accepted|]. split; [exact exl_reachable|]. split; [exact exl_quiescent|exact exl_facts]. Qed.
+
+(* later (the delegate executor discards the cancelled future, another submit() is served and finishes, time 5):
+   future 0 is still Pending, its record still queued *)
+Example c03_retry_lost_later_example :
+  run step init exl_later_trace <> None /\
+  clock exl_later_state = 5%Z /\ rs exl_later_state 0 = Pending /\ rs exl_later_state 1 = Finished /\
+  jobs exl_later_state = [1] /\ ds exl_later_state 0 = CancelledNotified /\ wblock exl_later_state = Some (None, 5%Z).
+Proof. split; [exact exl_later_accepted|exact exl_later_facts]. Qed.
+
+(* ... and for ever: from a reachable quiescent state in which the record r of a pending retry future j is in flight
+   on a cancelled delegate future d, along EVERY continuation that contains no call of cancel() on j itself
+   (whatever clients, environment, policy, worker and clock do), j stays pending and r stays in _jobs in flight
+   on the cancelled d.  no_cancel_of j es := forall e, In e es -> forall t, snd e <> ECallCancel t j. *)
+Theorem c03_retry_lost_for_ever : forall s tau since j r d es s', reachable s -> quiescent s tau since ->
+  j < nfut s -> fdone (rs s j) = false -> In r (jobs s) -> jf (recs s r) = j -> jdel (recs s r) = Some d ->
+  fcancelled (ds s d) = true ->
+  run step s es = Some s' -> no_cancel_of j es ->
+  fdone (rs s' j) = false /\
+  In r (jobs s') /\ jf (recs s' r) = j /\ jdel (recs s' r) = Some d /\ fcancelled (ds s' d) = true.
+Proof. exact retry_lost_for_ever. Qed.
+
+(* one-step form (any state in which no thread works on j, not only quiescent ones): lost s j r d is kept by every
+   step other than a call of cancel() on j *)
+Theorem c03_retry_lost_stable : forall s te s' j r d, reachable s -> j < nfut s -> lost s j r d ->
+  step s te = Some s' -> (forall t, snd te <> ECallCancel t j) -> lost s' j r d /\ fdone (rs s' j) = false.
+Proof. exact retry_lost_stable. Qed.
+
+(* the hypothesis no_cancel_of is needed: cancel() on the lost retry future does resolve it (delegate_future.cancel()
+   answers True for the already cancelled future, the job is popped, the retry future is cancelled) *)
+Example c03_retry_lost_then_cancel_example :
+  run step init exl_cancel_trace <> None /\
+  rs exl_cancel_state 0 = CancelledNotified /\ jobs exl_cancel_state = [] /\ ds exl_cancel_state 0 = Cancelled /\
+  In (HCancelRet 0 true 2%Z) (hist exl_cancel_state).
+Proof. split; [exact exl_cancel_accepted|exact exl_cancel_facts]. Qed.
+
+(* what remains of "a cancelled delegate future belongs to a done retry future" at quiescence: the retry future is
+   done, or the delegate future was cancelled by somebody else *)
 Theorem c03_retry_cancelled_delegate_resolved : forall s tau since, reachable s -> quiescent s tau since ->
-  forall d, d < ndel s -> fcancelled (ds s d) = true -> fdone (rs s (dfor s d)) = true.
+  forall d, d < ndel s -> fcancelled (ds s d) = true -> fdone (rs s (dfor s d)) = true \/ envc s d.
 Proof. exact retry_cancelled_delegate_resolved. Qed.
 
+(* the statement without the second alternative (true before the machine had EEnvCancel) is false now *)
+Theorem c03_retry_cancelled_delegate_resolved_old_refuted :
+  exists s tau since d, reachable s /\ quiescent s tau since /\ d < ndel s /\
+    fcancelled (ds s d) = true /\ fdone (rs s (dfor s d)) = false.
+Proof. exact exl_cancelled_delegate_unresolved. Qed.
+
+(* for comparison, RetryFuture.cancel() on a future whose attempt is pending in the delegate executor: the library
+   cancels the delegate future itself, pops the record and cancels the retry future *)
 Example c03_retry_cancel_example :
   run step init exc_trace <> None /\ reachable exc_state /\ quiescent exc_state None 0%Z /\
   ds exc_state 0 = Cancelled /\ dfor exc_state 0 = 0 /\ rs exc_state 0 = CancelledNotified /\ jobs exc_state = [].
@@ -109,34 +188,80 @@ Theorem c03_retry_finished_no_idle_job : forall s, reachable s -> forall j, rs s
   forall r, In r (jobs s) -> jf (recs s r) = j -> jdel (recs s r) <> None.
 Proof. exact retry_finished_no_idle_job. Qed.
 
-(* (a) strengthened, from the side of the records: in a quiescent state EVERY in-flight record in _jobs is
-   legitimate -- its delegate future is not done, _delegate_callback is registered on it, and its retry future is
-   not done.  In particular no in-flight record of a done future is retained. *)
+(* (a) strengthened, from the side of the records: in a quiescent state EVERY in-flight record in _jobs belongs to a
+   retry future that is not done, and it is legitimate -- its delegate future is not done and _delegate_callback is
+   registered on it -- or its delegate future was cancelled by somebody else *)
 Theorem c03_retry_inflight_at_quiescence : forall s tau since, reachable s -> quiescent s tau since ->
   forall r d, In r (jobs s) -> jdel (recs s r) = Some d ->
-  d < ndel s /\ fdone (ds s d) = false /\ dcb s d = true /\ fdone (rs s (jf (recs s r))) = false.
-Proof. exact retry_inflight_at_quiescence. Qed.
+  d < ndel s /\ fdone (rs s (jf (recs s r))) = false /\
+  ((fdone (ds s d) = false /\ dcb s d = true) \/ (fcancelled (ds s d) = true /\ envc s d)).
+Proof. exact retry_inflight_at_quiescence2. Qed.
 
-(* (c), as far as proved: the only record a done future could still own in a quiescent state is an idle
-   (between-retries) record of a CANCELLED future *)
+(* the statement without the second alternative (true before the machine had EEnvCancel) is false now *)
+Theorem c03_retry_inflight_at_quiescence_old_refuted :
+  exists s tau since r d, reachable s /\ quiescent s tau since /\ In r (jobs s) /\
+    jdel (recs s r) = Some d /\ fdone (ds s d) = true.
+Proof. exact exl_inflight_done. Qed.
+
+(* (c) for FINISHED futures, any reachable state: a record of a finished future that is still in _jobs is the in-flight
+   record of the delegate future whose outcome the retry future got (the finalising thread pops it right after
+   set_result / set_exception) *)
+Theorem c03_retry_finished_job_is_last : forall s, reachable s -> forall r, In r (jobs s) ->
+  rs s (jf (recs s r)) = Finished -> exists d, jdel (recs s r) = Some d /\ ds s d = Finished.
+Proof. exact retry_finished_job_is_last. Qed.
+
+(* (c) for CANCELLED futures, any reachable state: a record of a cancelled future that is still in _jobs is about to
+   be popped -- some thread's program will certainly execute _pop_job on it (wpop, Proofs/Retry_N10.v).  The cancel
+   paths of the repaired code pop the job (G7/G19): executor._cancel removes an idle job before super().cancel(),
+   and pops the in-flight job after delegate_future.cancel() answered True *)
+Theorem c03_retry_cancelled_job_popped : forall s, reachable s -> forall r, In r (jobs s) ->
+  fcancelled (rs s (jf (recs s r))) = true -> exists c, wpop r false (thr s c) = true.
+Proof. exact retry_cancelled_job_popped. Qed.
+
+(* (c), FULL -- retry_done_has_no_job: in every reachable quiescent state no record at all of a DONE future is left
+   in _jobs.  (With c03_retry_no_lost_three_way: the records in _jobs of a quiescent state are exactly the records of
+   the futures that are not done, one each.) *)
+Theorem c03_retry_done_has_no_job : forall s tau since, reachable s -> quiescent s tau since ->
+  forall r, In r (jobs s) -> fdone (rs s (jf (recs s r))) = false.
+Proof. exact retry_done_has_no_job. Qed.
+
+Theorem c03_retry_finished_has_no_job : forall s tau since, reachable s -> quiescent s tau since ->
+  forall r, In r (jobs s) -> rs s (jf (recs s r)) <> Finished.
+Proof. exact retry_finished_has_no_job. Qed.
+
+(* the residue statement of the earlier development ("the only record a done future could still own in a quiescent
+   state is an idle record of a CANCELLED future"): kept; its premise is now known to be impossible *)
 Theorem c03_retry_done_job_residue : forall s tau since, reachable s -> quiescent s tau since ->
   forall r, In r (jobs s) -> fdone (rs s (jf (recs s r))) = true ->
   jdel (recs s r) = None /\ fcancelled (rs s (jf (recs s r))) = true.
-Proof. exact retry_done_job_residue. Qed.
+Proof. exact retry_done_job_residue_orig. Qed.
 
-(* TODO-PROOF retry_done_has_no_job (c), full: in every reachable quiescent state no record at all of a done
-   future is left in _jobs.  Remaining gap (see c03_retry_done_job_residue): an idle record of a cancelled
-   future.  REPORT.md lists the invariants it needs. *)
+(* non-vacuity of c03_retry_done_has_no_job: exc_state (c03_retry_cancel_example) is a reachable quiescent state with
+   a cancelled future and an empty _jobs; ex3_state (c03_retry_nonvacuous) one with a finished future whose record is
+   gone while the records 3 and 6 of the pending futures 1 and 2 are queued *)
 
 Print Assumptions c03_retry_ghost_conservative.
 Print Assumptions c03_retry_parked_flag_clear.
 Print Assumptions c03_retry_no_lost_scan_time.
 Print Assumptions c03_retry_no_lost.
 Print Assumptions c03_retry_no_lost_three_way.
+Print Assumptions c03_retry_no_lost_three_way_weak.
+Print Assumptions c03_retry_no_lost_two_way_refuted.
+Print Assumptions c03_retry_lost_after_foreign_cancel_refuted.
+Print Assumptions c03_retry_lost_later_example.
+Print Assumptions c03_retry_lost_for_ever.
+Print Assumptions c03_retry_lost_stable.
+Print Assumptions c03_retry_lost_then_cancel_example.
 Print Assumptions c03_retry_cancelled_delegate_resolved.
+Print Assumptions c03_retry_cancelled_delegate_resolved_old_refuted.
 Print Assumptions c03_retry_one_record.
 Print Assumptions c03_retry_finished_no_idle_job.
 Print Assumptions c03_retry_inflight_at_quiescence.
+Print Assumptions c03_retry_inflight_at_quiescence_old_refuted.
+Print Assumptions c03_retry_finished_job_is_last.
+Print Assumptions c03_retry_cancelled_job_popped.
+Print Assumptions c03_retry_done_has_no_job.
+Print Assumptions c03_retry_finished_has_no_job.
 Print Assumptions c03_retry_done_job_residue.
 Print Assumptions c03_retry_cancel_example.
 Print Assumptions c03_retry_nonvacuous.
